@@ -1,1 +1,246 @@
-fn main(){}
+//! Raft-family conformance harness (crate features: raft; `persistent` adds RocksStore).
+//!   vhraft sm-replay  <cases.ndjson> <report.json>    RaftSM.tla cases on the real stores' state machine
+//!   vhraft log-replay <cases.ndjson> <report.json>    RaftLog.tla histories through the RaftStorage calls
+//!   vhraft suite      <report.json>                   openraft's storage conformance suite
+use openraft::storage::RaftStorage;
+use openraft::{CommittedLeaderId, Entry, EntryPayload, LogId, RaftLogReader, RaftSnapshotBuilder, Vote};
+use serde_json::{json, Value as J};
+use std::collections::BTreeMap;
+use varpulis_cluster::connector_config::ClusterConnector;
+use varpulis_cluster::raft::state_machine::CoordinatorState;
+use varpulis_cluster::raft::store::MemStore;
+use varpulis_cluster::raft::{ClusterCommand, TypeConfig};
+use varpulis_cluster::worker::WorkerCapacity;
+
+mod sync;
+
+fn read_cases(p: &str) -> Vec<J> {
+    std::fs::read_to_string(p).unwrap().lines().filter(|l| !l.trim().is_empty()).map(|l| serde_json::from_str(l).unwrap()).collect()
+}
+pub fn catch<T>(f: impl FnOnce() -> T) -> Result<T, String> {
+    std::panic::catch_unwind(std::panic::AssertUnwindSafe(f)).map_err(|e| e.downcast_ref::<String>().cloned().or_else(|| e.downcast_ref::<&str>().map(|s| s.to_string())).unwrap_or_else(|| "panic".into()))
+}
+
+#[derive(Default)]
+pub struct Report { total: u64, nontrivial: std::collections::BTreeSet<u64>, violations: Vec<J>, known: BTreeMap<String, (u64, String, Vec<String>)>, counters: BTreeMap<String, u64>, samples: Vec<J> }
+impl Report {
+    pub fn case(&mut self, c: &J, nontrivial: bool) {
+        self.total += 1;
+        if nontrivial { use std::hash::{Hash, Hasher}; let mut h = std::collections::hash_map::DefaultHasher::new(); c.to_string().hash(&mut h); self.nontrivial.insert(h.finish()); }
+        if self.samples.len() < 3 { self.samples.push(c.clone()); }
+    }
+    pub fn count(&mut self, k: &str, n: u64) { *self.counters.entry(k.into()).or_insert(0) += n; }
+    pub fn violation(&mut self, props: &[&str], what: &str, case: &J, expected: J, got: J) {
+        if self.violations.len() < 200 { self.violations.push(json!({"prop": props, "what": what, "case": case, "expected": expected, "got": got})); } else { self.count("violations_truncated", 1); }
+    }
+    pub fn known(&mut self, props: &[&str], id: &str, what: &str) {
+        let e = self.known.entry(id.into()).or_insert((0, what.into(), props.iter().map(|s| s.to_string()).collect()));
+        e.0 += 1;
+    }
+    pub fn write(&self, p: &str) {
+        let known: Vec<J> = self.known.iter().map(|(k, (n, w, pr))| json!({"finding": k, "count": n, "what": w, "prop": pr})).collect();
+        std::fs::write(p, serde_json::to_string(&json!({"total": self.total, "distinct_nontrivial": self.nontrivial.len(), "violations": self.violations, "known": known, "drift": [], "samples": self.samples, "counters": self.counters})).unwrap()).unwrap();
+    }
+}
+
+// ---------------------------------------------------------------- commands
+fn connector(v: u64) -> ClusterConnector {
+    ClusterConnector { name: "c1".into(), connector_type: "mqtt".into(), params: [("host".to_string(), format!("h{v}")), ("port".to_string(), "1883".to_string())].into_iter().collect(), description: if v == 2 { Some("second".into()) } else { None } }
+}
+pub fn command(c: &J) -> ClusterCommand {
+    let id = || c["id"].as_str().unwrap().to_string();
+    let v = || c["v"].as_u64().unwrap();
+    match c["k"].as_str().unwrap() {
+        "RegisterWorker" => ClusterCommand::RegisterWorker { id: id(), address: format!("http://{}:9000", id()), api_key: "key".into(), capacity: WorkerCapacity { cpu_cores: v() as usize * 4, pipelines_running: 0, max_pipelines: 10 * v() as usize } },
+        "DeregisterWorker" => ClusterCommand::DeregisterWorker { id: id() },
+        "WorkerStatusChanged" => ClusterCommand::WorkerStatusChanged { id: id(), status: c["v"].as_str().unwrap().into() },
+        "WorkerPipelinesUpdated" => ClusterCommand::WorkerPipelinesUpdated { id: id(), assigned_pipelines: (1..=v()).map(|i| format!("p{i}")).collect() },
+        "GroupDeployed" => ClusterCommand::GroupDeployed { name: id(), group: json!({"name": id(), "version": v(), "nested": {"z": [1, 2.5, null], "a": "x"}}) },
+        "GroupUpdated" => ClusterCommand::GroupUpdated { name: id(), group: json!({"name": id(), "version": v(), "nested": {"z": [1, 2.5, null], "a": "x"}}) },
+        "GroupRemoved" => ClusterCommand::GroupRemoved { name: id() },
+        "MigrationStarted" => ClusterCommand::MigrationStarted { task: if id() == "noid" { json!({"pipeline": "p", "status": "running"}) } else { json!({"id": id(), "pipeline": "p", "status": "running"}) } },
+        "MigrationUpdated" => ClusterCommand::MigrationUpdated { id: id(), status: c["v"].as_str().unwrap().into() },
+        "MigrationRemoved" => ClusterCommand::MigrationRemoved { id: id() },
+        "ConnectorCreated" => ClusterCommand::ConnectorCreated { name: id(), connector: connector(v()) },
+        "ConnectorUpdated" => ClusterCommand::ConnectorUpdated { name: id(), connector: connector(v()) },
+        "ConnectorRemoved" => ClusterCommand::ConnectorRemoved { name: id() },
+        "ScalingPolicySet" => ClusterCommand::ScalingPolicySet { policy: if v() == 0 { None } else { Some(json!({"min": v(), "max": 9, "f": 0.5})) } },
+        "ModelRegistered" => ClusterCommand::ModelRegistered { name: id(), entry: varpulis_cluster::model_registry::ModelRegistryEntry { name: id(), s3_key: format!("k{}", v()), format: "onnx".into(), inputs: vec!["a".into()], outputs: vec!["b".into()], size_bytes: u64::MAX - v(), uploaded_at: "t".into(), description: String::new() } },
+        "ModelRemoved" => ClusterCommand::ModelRemoved { name: id() },
+        k => panic!("command {k}"),
+    }
+}
+/// canonical JSON of the replicated state (maps sorted)
+pub fn canon(s: &CoordinatorState) -> J {
+    fn sort(v: J) -> J { match v { J::Object(m) => { let mut b: BTreeMap<String, J> = BTreeMap::new(); for (k, x) in m { b.insert(k, sort(x)); } J::Object(b.into_iter().collect()) } J::Array(a) => J::Array(a.into_iter().map(sort).collect()), x => x } }
+    sort(serde_json::to_value(s).unwrap())
+}
+/// projection of the real state onto RaftSM.tla's abstract state
+fn project(s: &CoordinatorState) -> J {
+    let w = |id: &str| match s.workers.get(id) { None => json!({"p": "absent"}), Some(w) => json!({"p": "present", "cap": w.cpu_cores / 4, "status": w.status, "assigned": w.assigned_pipelines.len()}) };
+    let g = |id: &str| s.pipeline_groups.get(id).map(|g| g["version"].as_u64().unwrap_or(99)).unwrap_or(0);
+    let m = |id: &str| s.active_migrations.get(id).map(|m| m["status"].as_str().unwrap_or("?").to_string()).unwrap_or("absent".into());
+    json!({"workers": {"w1": w("w1"), "w2": w("w2")}, "groups": {"g1": g("g1"), "g2": g("g2")}, "migs": {"m1": m("m1"), "m2": m("m2")},
+           "conns": s.connectors.get("c1").map(|c| if c.params["host"] == "h1" { 1 } else { 2 }).unwrap_or(0),
+           "policy": s.scaling_policy.as_ref().map(|p| p["min"].as_u64().unwrap()).unwrap_or(0),
+           "model": s.models.get("md").map(|m| if m.s3_key == "k1" { 1 } else { 2 }).unwrap_or(0)})
+}
+pub fn lid(term: u64, index: u64) -> LogId<u64> { LogId::new(CommittedLeaderId::new(term, 1), index) }
+pub fn entry(term: u64, index: u64, c: Option<&J>) -> Entry<TypeConfig> {
+    Entry { log_id: lid(term, index), payload: match c { Some(c) => EntryPayload::Normal(command(c)), None => EntryPayload::Blank } }
+}
+
+// ---------------------------------------------------------------- stores
+pub trait Store: RaftStorage<TypeConfig> + Sized { fn fresh(dir: &std::path::Path) -> Self; fn state(&self) -> CoordinatorState; const NAME: &'static str; }
+impl Store for MemStore { fn fresh(_: &std::path::Path) -> Self { MemStore::new() } fn state(&self) -> CoordinatorState { self.state.clone() } const NAME: &'static str = "MemStore"; }
+#[cfg(feature = "persistent")]
+impl Store for varpulis_cluster::raft::persistent_store::RocksStore {
+    fn fresh(dir: &std::path::Path) -> Self { varpulis_cluster::raft::persistent_store::RocksStore::open(dir.to_str().unwrap()).expect("open") }
+    fn state(&self) -> CoordinatorState { self.state.clone() }
+    const NAME: &'static str = "RocksStore";
+}
+
+async fn sm_case<S: Store>(c: &J, rep: &mut Report) {
+    let log = c["log"].as_array().unwrap();
+    let n = log.len();
+    let cut = (c["cut"].as_u64().unwrap() as usize).min(n);
+    let snap = (c["snap"].as_u64().unwrap() as usize).min(n);
+    let small = json!({"store": S::NAME, "log": log, "cut": cut, "snapshot_at": snap});
+    let entries: Vec<Entry<TypeConfig>> = log.iter().enumerate().map(|(i, c)| entry(1, i as u64 + 1, Some(c))).collect();
+    let tmp = tempfile::tempdir().unwrap();
+    // (a) one by one
+    let mut a = S::fresh(&tmp.path().join("a"));
+    for e in &entries { a.apply_to_state_machine(std::slice::from_ref(e)).await.unwrap(); }
+    // (b) two batches cut at `cut`
+    let mut b = S::fresh(&tmp.path().join("b"));
+    if cut > 0 { b.apply_to_state_machine(&entries[..cut]).await.unwrap(); }
+    if cut < n { b.apply_to_state_machine(&entries[cut..]).await.unwrap(); }
+    // (c) snapshot at `snap` built by one store, installed into a fresh one, rest applied there
+    let mut c1 = S::fresh(&tmp.path().join("c1"));
+    if snap > 0 { c1.apply_to_state_machine(&entries[..snap]).await.unwrap(); }
+    let mut builder = c1.get_snapshot_builder().await;
+    let snapshot = builder.build_snapshot().await.unwrap();
+    let mut c2 = S::fresh(&tmp.path().join("c2"));
+    c2.install_snapshot(&snapshot.meta, snapshot.snapshot).await.unwrap();
+    let applied_after_install = c2.last_applied_state().await.unwrap().0;
+    if snap < n { c2.apply_to_state_machine(&entries[snap..]).await.unwrap(); }
+    let (sa, sb, sc) = (canon(&a.state()), canon(&b.state()), canon(&c2.state()));
+    rep.case(&small, sa != canon(&CoordinatorState::default()));
+    if sa != sb { rep.violation(&["C35"], "applying the log in two batches gives another state than entry by entry", &small, sa.clone(), sb); }
+    if sa != sc { rep.violation(&["C35"], "snapshot + rest of the log gives another state than the whole log", &small, sa.clone(), sc); }
+    let want_applied = if snap == 0 { None } else { Some(lid(1, snap as u64)) };
+    if applied_after_install != want_applied { rep.violation(&["C35"], "installed snapshot reports another applied position", &small, json!(format!("{want_applied:?}")), json!(format!("{applied_after_install:?}"))); }
+    let pj = project(&a.state());
+    if pj != c["final"] { rep.violation(&["C35"], "replicated state differs from the specification's fold of the log", &small, c["final"].clone(), pj); }
+    let la = a.last_applied_state().await.unwrap().0;
+    if la != (if n == 0 { None } else { Some(lid(1, n as u64)) }) { rep.violation(&["C35"], "last applied position wrong", &small, json!(n), json!(format!("{la:?}"))); }
+}
+
+fn obs_json(last: Option<LogId<u64>>, purged: Option<LogId<u64>>, vote: Option<Vote<u64>>, entries: Vec<u64>) -> J {
+    let l = |x: Option<LogId<u64>>| x.map(|i| json!({"t": i.leader_id.term, "i": i.index})).unwrap_or(json!({"t": 0, "i": 0}));
+    json!({"last": l(last), "purged": l(purged), "vote": vote.map(|v| v.leader_id().term).unwrap_or(0), "entries": entries})
+}
+async fn log_case<S: Store>(c: &J, rep: &mut Report, maxidx: u64) {
+    let tmp = tempfile::tempdir().unwrap();
+    let mut s = S::fresh(&tmp.path().join("l"));
+    let hist = c["hist"].as_array().unwrap();
+    let small = json!({"store": S::NAME, "ops": hist.iter().map(|h| json!([h["op"], h["a"], h["b"]])).collect::<Vec<_>>()});
+    rep.case(&small, hist.iter().any(|h| h["op"] == "purge" || h["op"] == "delete_conflict"));
+    let mut term = 1u64;
+    for (n, h) in hist.iter().enumerate() {
+        let (a, b) = (h["a"].as_u64().unwrap(), h["b"].as_u64().unwrap());
+        match h["op"].as_str().unwrap() {
+            "term" => term = a,
+            "append" => { let es: Vec<Entry<TypeConfig>> = (a..a + b).map(|i| entry(term, i, None)).collect(); s.append_to_log(es).await.unwrap(); }
+            "delete_conflict" => s.delete_conflict_logs_since(lid(b, a)).await.unwrap(),
+            "purge" => s.purge_logs_upto(lid(b, a)).await.unwrap(),
+            "vote" => s.save_vote(&Vote::new(a, 1)).await.unwrap(),
+            o => panic!("op {o}"),
+        }
+        let st = s.get_log_state().await.unwrap();
+        let vote = s.read_vote().await.unwrap();
+        let got_entries = s.try_get_log_entries(1..=maxidx).await.unwrap();
+        let mut ev = vec![0u64; maxidx as usize];
+        let mut ordered = true;
+        let mut prev = 0;
+        for e in &got_entries { let i = e.log_id.index; if i <= prev { ordered = false; } prev = i; if i >= 1 && i <= maxidx { ev[(i - 1) as usize] = e.log_id.leader_id.term; } }
+        let got = obs_json(st.last_log_id, st.last_purged_log_id, vote, ev);
+        let want = &h["obs"];
+        if !ordered { rep.violation(&["C35"], "log entries not returned in index order", &small, J::Null, json!(n)); }
+        if &got != want {
+            rep.violation(&["C35"], "storage contract: observation after a storage call differs from the reference", &json!({"case": small, "step": n + 1}), want.clone(), got);
+            return;
+        }
+    }
+}
+
+fn main() {
+    let args: Vec<String> = std::env::args().collect();
+    let rt = tokio::runtime::Builder::new_multi_thread().worker_threads(2).enable_all().build().unwrap();
+    match args[1].as_str() {
+        "sm-replay" => {
+            let cases = read_cases(&args[2]);
+            let mut rep = Report::default();
+            rt.block_on(async {
+                for c in &cases {
+                    sm_case::<MemStore>(c, &mut rep).await;
+                    #[cfg(feature = "persistent")]
+                    sm_case::<varpulis_cluster::raft::persistent_store::RocksStore>(c, &mut rep).await;
+                }
+            });
+            rep.write(&args[3]);
+        }
+        "log-replay" => {
+            let cases = read_cases(&args[2]);
+            let maxidx: u64 = args[4].parse().unwrap();
+            let mut rep = Report::default();
+            rt.block_on(async {
+                for c in &cases {
+                    log_case::<MemStore>(c, &mut rep, maxidx).await;
+                    #[cfg(feature = "persistent")]
+                    log_case::<varpulis_cluster::raft::persistent_store::RocksStore>(c, &mut rep, maxidx).await;
+                }
+            });
+            rep.write(&args[3]);
+        }
+        "suite" => suite(&args[2]),
+        "sync-replay" => sync::replay(&rt, &args[2], &args[3]),
+        c => panic!("unknown command {c}"),
+    }
+}
+
+// ---------------------------------------------------------------- openraft's own storage conformance suite
+struct MemBuilder;
+impl openraft::testing::StoreBuilder<TypeConfig, openraft::storage::Adaptor<TypeConfig, MemStore>, openraft::storage::Adaptor<TypeConfig, MemStore>, ()> for MemBuilder {
+    async fn build(&self) -> Result<((), openraft::storage::Adaptor<TypeConfig, MemStore>, openraft::storage::Adaptor<TypeConfig, MemStore>), openraft::StorageError<u64>> {
+        let (l, s) = openraft::storage::Adaptor::new(MemStore::new());
+        Ok(((), l, s))
+    }
+}
+#[cfg(feature = "persistent")]
+struct RocksBuilder;
+#[cfg(feature = "persistent")]
+type RS = varpulis_cluster::raft::persistent_store::RocksStore;
+#[cfg(feature = "persistent")]
+impl openraft::testing::StoreBuilder<TypeConfig, openraft::storage::Adaptor<TypeConfig, RS>, openraft::storage::Adaptor<TypeConfig, RS>, tempfile::TempDir> for RocksBuilder {
+    async fn build(&self) -> Result<(tempfile::TempDir, openraft::storage::Adaptor<TypeConfig, RS>, openraft::storage::Adaptor<TypeConfig, RS>), openraft::StorageError<u64>> {
+        let d = tempfile::tempdir().unwrap();
+        let (l, s) = openraft::storage::Adaptor::new(RS::open(d.path().to_str().unwrap()).unwrap());
+        Ok((d, l, s))
+    }
+}
+fn suite(report: &str) {
+    let mut rep = Report::default();
+    let mut run = |name: &str, r: Result<Result<(), openraft::StorageError<u64>>, String>| {
+        rep.case(&json!({"suite": name}), true);
+        match r {
+            Ok(Ok(())) => rep.count(&format!("suite_{name}_ok"), 1),
+            Ok(Err(e)) => rep.violation(&["C35"], "openraft storage conformance suite failed", &json!({"store": name}), json!("Suite::test_all passes"), json!(e.to_string())),
+            Err(p) => rep.violation(&["C35"], "openraft storage conformance suite failed an assertion", &json!({"store": name}), json!("Suite::test_all passes"), json!(p.chars().take(900).collect::<String>())),
+        }
+    };
+    run("MemStore", catch(|| openraft::testing::Suite::test_all(MemBuilder)));
+    #[cfg(feature = "persistent")]
+    run("RocksStore", catch(|| openraft::testing::Suite::test_all(RocksBuilder)));
+    rep.write(report);
+}
